@@ -69,9 +69,9 @@ type Scenario struct {
 	Quick    int // deviation bound in the quick tier (-1: not run)
 	Thorough int // deviation bound in the thorough tier (-1: not run)
 	Prune    bool
-	Body     func(x *X)                // runs as simulated goroutine 0
+	Body     func(x *X)               // runs as simulated goroutine 0
 	Final    func(x *X, r *rt.Result) // runs after the execution ended (outside the simulation)
-	Reset    func()                    // resets process-global state before each execution
+	Reset    func()                   // resets process-global state before each execution
 }
 
 // Check describes one property check binary.
@@ -157,8 +157,8 @@ func outcomeKey(x *X, r *rt.Result) string {
 // workerState persists across jobs of the same (scenario, bound) in a worker
 type workerState struct {
 	nDet int
-	key string
-	ex  *rt.Explorer
+	key  string
+	ex   *rt.Explorer
 }
 
 func runJob(j job, ws *workerState) jobResult {
@@ -201,6 +201,18 @@ func runJob(j job, ws *workerState) jobResult {
 			ex.Stats = save
 			if fmt.Sprint(ch2) != fmt.Sprint(ch) || r2.StateHash != r.StateHash || strings.Join(x2.obs, "\n") != strings.Join(x.obs, "\n") {
 				res.Nondet = fmt.Sprintf("replay of %v diverged: choices %v, hash %x vs %x, obs %q vs %q", ch, ch2, r.StateHash, r2.StateHash, x.obs, x2.obs)
+				// locate the first differing event
+				topt := ex.Opt
+				ex.Opt.Trace = true
+				ta, _ := ex.RunOne(ch)
+				tb, _ := ex.RunOne(ch)
+				ex.Opt = topt
+				for i := 0; i < len(ta.Log) && i < len(tb.Log); i++ {
+					if ta.Log[i] != tb.Log[i] {
+						res.Nondet += fmt.Sprintf("; first differing event #%d: %q vs %q", i, ta.Log[i], tb.Log[i])
+						break
+					}
+				}
 				return false
 			}
 		}
@@ -313,19 +325,19 @@ func (w *worker) do(j job) (jobResult, error) {
 
 // ScenarioReport is the per-scenario part of the evidence.
 type ScenarioReport struct {
-	Name         string   `json:"name"`
-	Bound        int      `json:"bound_completed"`
-	Exhaustive   bool     `json:"exhaustive"`
-	Executions   int64    `json:"executions"`
-	Pruned       int64    `json:"pruned_executions"`
-	States       int64    `json:"states"`
-	Transitions  int64    `json:"transitions"`
-	Outcomes     int      `json:"distinct_outcomes"`
-	DevHist      []int64  `json:"deviation_histogram"`
-	Ends         map[string]int64 `json:"ends"`
-	MaxPoints    int      `json:"max_choice_points"`
-	Cap          string   `json:"cap,omitempty"`
-	WallS        float64  `json:"wall_s"`
+	Name        string           `json:"name"`
+	Bound       int              `json:"bound_completed"`
+	Exhaustive  bool             `json:"exhaustive"`
+	Executions  int64            `json:"executions"`
+	Pruned      int64            `json:"pruned_executions"`
+	States      int64            `json:"states"`
+	Transitions int64            `json:"transitions"`
+	Outcomes    int              `json:"distinct_outcomes"`
+	DevHist     []int64          `json:"deviation_histogram"`
+	Ends        map[string]int64 `json:"ends"`
+	MaxPoints   int              `json:"max_choice_points"`
+	Cap         string           `json:"cap,omitempty"`
+	WallS       float64          `json:"wall_s"`
 }
 
 func merge(dst *rt.Stats, s rt.Stats) {
